@@ -17,7 +17,13 @@ pub const LIMIT: usize = 16 * 1024 * 1024;
 
 pub fn stub_with_capacity_checked<T>(cap: usize) -> Vec<T> {
     let bytes = (cap as u128) * (core::mem::size_of::<T>() as u128);
-    assert!(bytes <= LIMIT as u128, "allocation request above 16 MiB");
+    if bytes > LIMIT as u128 {
+        assert!(false, "allocation request above 16 MiB");
+        // the violation is reported; do not go on exploring this path with a huge
+        // symbolic capacity (a seeded change timed out there instead of failing)
+        #[cfg(kani)]
+        kani::assume(false);
+    }
     let mut v = Vec::new();
     v.reserve(if cap < 8 { cap } else { 8 });
     v
